@@ -194,7 +194,16 @@ FIXED_FUNCS = (
     'function lp(n) return integer is begin k = 0; for i in 1 to n loop begin k = k + 10 / (3 - i); exception when divide_by_zero then return k; end; end loop; return k + 1000; end;\n'
     # string/table parameters changed in place
     'function ap(t, s) return integer is begin t.concat(1); s.concat("!"); print "@@A:" t.count() " " s; return t.count(); end;\n')
-FIXED_CALLS = ["c = g(1, g(2, 3));", "c = inc(inc(inc(0)));", "c = g(inc(1), g(inc(2), inc(3)));", "c = eh(false);", "c = eh(true);", "c = lz(true);", "c = lz(false);",
+FIXED_FUNCS += ('function dbl(a) return integer is begin return a * 2; end;\n'
+                'function tag(s) return string is begin return "<" + s + ">"; end;\n'
+                'function fib(n) return integer is begin if n < 2 then return n; end if; return fib(n - 1) + fib(n - 2); end;\n'
+                'function tb(n) return table is begin return tab(n, n); end;\n')
+# calls whose value follows from the definitions alone (several results of one function alive in one expression, double recursion)
+FIXED_EXPECT = {"c = g(1, g(2, 3));": "33", "c = inc(inc(inc(0)));": "3", "c = g(inc(1), g(inc(2), inc(3)));": "54", "c = dbl(1) + dbl(2);": "6", "c = dbl(5) - dbl(1);": "8",
+                "c = fib(10);": "55", "c = strlen(tag(\"a\") + tag(\"bc\"));": "7", "c = dbl(dbl(1) + dbl(2)) * dbl(3);": "72", "c = tb(2).count() + tb(3).count() * 10;": "32",
+                "c = g(dbl(1), dbl(2)) + g(dbl(3), dbl(4));": "92", "c = lp(2);": "1015", "c = lp(5);": "15"}
+FIXED_CALLS = ["c = dbl(1) + dbl(2);", "c = dbl(5) - dbl(1);", "c = fib(10);", "c = strlen(tag(\"a\") + tag(\"bc\"));", "c = dbl(dbl(1) + dbl(2)) * dbl(3);",
+               "c = tb(2).count() + tb(3).count() * 10;", "c = g(dbl(1), dbl(2)) + g(dbl(3), dbl(4));", "c = g(1, g(2, 3));", "c = inc(inc(inc(0)));", "c = g(inc(1), g(inc(2), inc(3)));", "c = eh(false);", "c = eh(true);", "c = lz(true);", "c = lz(false);",
                "c = lp(2);", "c = lp(5);", "c = ap(tab(1, 0), \"x\");", "c = g(1, eh(true));", "c = g(lz(false), lz(true));", "c = inc(10 / 0);", "c = g(1, g(2, 10 / 0));"]
 
 
@@ -228,6 +237,9 @@ def _fixed_twins(self):
                 m = ld.markers(out)
                 return m[m.index("@@9999:target"):] if "@@9999:target" in m else None
             ta, tb = after(outa), after(outb)
+            exp = FIXED_EXPECT.get(target)
+            if exp is not None and tb is not None and tb[-1:] != ["@@R:" + exp]:
+                self.viol("result|fixed", "`%s` gives %r in a fresh context; its definitions give %s" % (target, tb[-1:], exp), ops, text); continue
             if ta != tb or oa != ob:
                 self.viol("history-dependence|fixed", "`%s` printed %r (%s) after the calls %r but %r (%s) in a fresh context" % (target, ta, oa, h, tb, ob), ops, text); continue
             da = parse_dump(rep[3]); db = parse_dump(rep[7])
